@@ -206,6 +206,34 @@ func (l *ledger) checkRestart(n *simNode) {
 			l.violate("crash", "acknowledged-entry-lost", fmt.Sprintf("node %d acknowledged entry %d (term %d) as stored but after restart its log is (%d,%d] with snapshot %d", n.id, a[0], a[1], r.log.PrevIndex(), r.lastLogIndex, r.snaps.index))
 		}
 	}
+	l.checkRestartLog(n)
+}
+
+// checkRestartLog (C10): after a restart the log is contiguous with the latest
+// snapshot and the position the node works with (lastLogIndex / lastLogTerm:
+// what it reports in vote requests and appends behind) is that of its log.
+func (l *ledger) checkRestartLog(n *simNode) {
+	r := n.r
+	if r.log.PrevIndex() > r.snaps.index {
+		l.violate("crash", "log-not-contiguous-with-snapshot", fmt.Sprintf("node %d restarted with snapshot %d and a log starting after %d", n.id, r.snaps.index, r.log.PrevIndex()))
+	}
+	if r.lastLogIndex != r.log.LastIndex() {
+		l.violate("crash", "log-position-inconsistent", fmt.Sprintf("node %d restarted with lastLogIndex %d but its log is (%d,%d] (snapshot %d)", n.id, r.lastLogIndex, r.log.PrevIndex(), r.log.LastIndex(), r.snaps.index))
+		return
+	}
+	want := r.snaps.term
+	if r.log.LastIndex() > r.log.PrevIndex() {
+		e, ok := l.entryAt(n, r.log.LastIndex())
+		if !ok {
+			return
+		}
+		want = e.term
+	} else if r.log.LastIndex() == 0 {
+		want = 0
+	}
+	if r.lastLogTerm != want {
+		l.violate("crash", "log-position-inconsistent", fmt.Sprintf("node %d restarted with lastLogTerm %d but the last entry of its log (%d,%d] / snapshot %d has term %d", n.id, r.lastLogTerm, r.log.PrevIndex(), r.log.LastIndex(), r.snaps.index, want))
+	}
 }
 
 func (l *ledger) onCrash(n *simNode)     {}
